@@ -282,13 +282,18 @@ def o_parse(inp):
         cls.append("enc:" + enc)
         if not text.isascii():
             cls.append("non-ascii-file")
+    into = inp.get("into") if inp["via"] == "string" else None
+    if into is not None:
+        # `library=`: the text is split into the given (non-empty) library, then the stack runs over that library
+        cls.append("into-existing-library")
+        nontrivial = True
     # the documented composition
     if ps is not None and am is not None:
         exp = ("exc", "ValueError")
         cls.append("both-given")
     else:
         def ref():
-            lib = Splitter(text).split()
+            lib = Splitter(text).split() if into is None else Splitter(text).split(library=Splitter(get_doc(into)).split())
             if ps is not None:
                 specs = ps
                 pre = []
@@ -304,6 +309,8 @@ def o_parse(inp):
         kw["parse_stack"] = _real_stack(ps)
     if am is not None:
         kw["append_middleware"] = _real_stack(am)
+    if into is not None:
+        kw["library"] = Splitter(get_doc(into)).split()
     if inp["via"] == "string":
         got = outcome(lambda: canon(bibtexparser.parse_string(text, **kw)))
     else:
@@ -557,6 +564,19 @@ def w_block_probes(acc, kind_i):
             acc.run("parse", o_parse, {"doc": doc, "parse_stack": [spec, LIB_PROBES[1]], "append_middleware": None, "via": "string"}, True)
 
 
+def w_into_library(acc):
+    """parse_string(text, library=existing): probes and shipped middlewares see (and act on) the whole library."""
+    docs = [0, 3, 7, 14, 15, 16, 17]
+    stacks_ = [None, [], [LIB_PROBES[0]], [LIB_PROBES[0], LIB_PROBES[1]], [{"probe": "block", "rets": {"entry": "tag"}}], [{"probe": "block", "rets": {"string": "none"}}, LIB_PROBES[2]],
+               [{"mw": "ResolveStringReferences"}], [{"mw": "ResolveStringReferences"}, {"mw": "RemoveEnclosing"}, LIB_PROBES[1]], [SHIPPED[5], LIB_PROBES[0]]]
+    for doc in docs:
+        for into in docs:
+            for st_ in stacks_:
+                acc.run("parse", o_parse, {"doc": doc, "into": into, "parse_stack": st_, "append_middleware": None, "via": "string"}, True)
+                if st_ is not None:
+                    acc.run("parse", o_parse, {"doc": doc, "into": into, "parse_stack": None, "append_middleware": st_, "via": "string"}, True)
+
+
 def w_raw_block_probes(acc):
     """Probes overriding transform_block: failed blocks (parse failures, duplicate keys / fields) are blocks like any other."""
     for ret in FAILED_RETURNS:
@@ -623,6 +643,7 @@ def run(chk):
         tasks.append(("w_block_probes", (k,)))
     tasks.append(("w_isolation", ()))
     tasks.append(("w_raw_block_probes", ()))
+    tasks.append(("w_into_library", ()))
     nspec = len(libgen.all_middleware_specs())
     tasks += [("w_routes", (lo, min(nspec, lo + 4))) for lo in range(0, nspec, 4)]
     n_rand = 40000 if quick else 400000
@@ -647,5 +668,5 @@ def run(chk):
         "order-sensitive members, a non-UTF-8 file with non-ASCII content, a block probe returning something other than one block, "
         "or a file target."
     )
-    chk.required_classes = ["parse:string", "parse:file", "write:string", "write:path", "write:file", "write:stringio", "both-given", ">=2-order-sensitive", "block-probe", "raw-block-probe", "routes:middleware-had-an-effect", "enc:gbk", "enc:utf-16", "enc:latin-1", "non-ascii-file", "default-stack-isolation"]
+    chk.required_classes = ["parse:string", "parse:file", "write:string", "write:path", "write:file", "write:stringio", "both-given", ">=2-order-sensitive", "block-probe", "raw-block-probe", "into-existing-library", "routes:middleware-had-an-effect", "enc:gbk", "enc:utf-16", "enc:latin-1", "non-ascii-file", "default-stack-isolation"]
     chk.assumptions = ["documents contain no carriage return (text-mode file reading translates line endings)", "an empty non-list collection returned by a block middleware (e.g. '') counts as 'empty'; not asserted either way"]
